@@ -190,15 +190,20 @@ def harness(case, tier):
             detail=dict(whole=len(whole.acted), split=len(split.acted), k=k))
     for i in range(min(len(split.acted), len(whole.acted))):
         c.prove(same_bytes(msg_fields(split.acted[i]), msg_fields(whole.acted[i])), 'split:same-messages[%s]' % z)
-    c.prove(split.exc == whole.exc, 'split:same-exceptions[%s]' % z, detail=dict(whole=whole.exc, split=split.exc, k=k))
-    c.prove(split.buffered() == whole.buffered(), 'split:same-remaining-buffer[%s]' % z,
-            detail=dict(whole=whole.buffered(), split=split.buffered()))
+    # once the endpoint has closed the connection nothing further is read or buffered meaningfully
+    wc = 'A' in whole.w.closed_socks
+    sc = 'A' in split.w.closed_socks
+    c.prove(wc == sc, 'split:same-closure[%s]' % z, detail=dict(whole=wc, split=sc, k=k))
+    if not (wc and sc):
+        c.prove(split.exc == whole.exc, 'split:same-exceptions[%s]' % z, detail=dict(whole=whole.exc, split=split.exc, k=k))
+        c.prove(split.buffered() == whole.buffered(), 'split:same-remaining-buffer[%s]' % z,
+                detail=dict(whole=whole.buffered(), split=split.buffered()))
     # a prefix is left untouched: no exception may come out of a partial delivery
     if exp_err is None:
         c.prove(not exc_after_first, 'prefix:no-exception-on-partial[%s]' % z, detail=dict(exc=exc_after_first, k=k))
 
     # (b) agreement with the independent decoder
-    if exp_err is None and not whole.exc:
+    if exp_err is None and not whole.exc and not wc:
         c.prove(len(whole.acted) == len(exp), 'oracle:same-message-count[%s]' % z,
                 detail=dict(impl=len(whole.acted), oracle=[m['kind'] for m in exp], buffered=whole.buffered()))
         c.prove(whole.buffered() == blen(rest), 'oracle:same-remaining-buffer[%s]' % z,
